@@ -330,7 +330,35 @@ def scan_generated(code, sandboxed=True):
                     and isinstance(n.args[1].value, str) and n.args[1].value.startswith("_"):
                 # from-import reads module attributes with the builtin getattr: never an underscore name
                 problems.append(("builtin-getattr-of-underscore-name", n.lineno, ast.unparse(n)[:80]))
+    problems += unguarded_stores(code)
     return problems, counts
+
+
+def unguarded_stores(code):
+    """subscript stores `l_N_x[...] = ...` on a template value that are not preceded, in the same function, by
+    `if not isinstance(l_N_x, Namespace): raise ...` (the guard visit_Assign emits for attribute-style targets)"""
+    tree = ast.parse(code)
+    problems = []
+    for fn in ast.walk(tree):
+        if not isinstance(fn, (ast.FunctionDef, ast.AsyncFunctionDef)):
+            continue
+        guarded_at = {}      # name -> first line of a guard
+        stores = []
+        for n in ast.walk(fn):
+            if isinstance(n, ast.If) and isinstance(n.test, ast.UnaryOp) and isinstance(n.test.op, ast.Not) \
+                    and isinstance(n.test.operand, ast.Call) and isinstance(n.test.operand.func, ast.Name) \
+                    and n.test.operand.func.id == "isinstance" and len(n.test.operand.args) == 2 \
+                    and isinstance(n.test.operand.args[0], ast.Name) and isinstance(n.test.operand.args[1], ast.Name) \
+                    and n.test.operand.args[1].id == "Namespace" and n.body and isinstance(n.body[0], ast.Raise):
+                name = n.test.operand.args[0].id
+                guarded_at[name] = min(guarded_at.get(name, n.lineno), n.lineno)
+            if isinstance(n, ast.Subscript) and isinstance(n.ctx, (ast.Store, ast.Del)) and isinstance(n.value, ast.Name) \
+                    and TVAR.match(n.value.id):
+                stores.append((n.value.id, n.lineno, ast.unparse(n)[:60]))
+        for name, line, text in stores:
+            if name not in guarded_at or guarded_at[name] > line:
+                problems.append(("unguarded-subscript-store", line, text))
+    return problems
 
 
 # ------------------------------------------------------------------ template generator (statement positions)
@@ -354,6 +382,9 @@ class SGen:
         if k == 0:
             return "{{ " + self.ex() + " }}"
         if k == 1:
+            if r.random() < 0.3:
+                tgt = r.choice(NAMES) + "." + r.choice(["a", "_p", "foo"])
+                return ("{% set " + tgt + " = " + self.ex() + " %}") if r.random() < 0.5 else ("{% set " + tgt + " %}" + "{{ " + self.ex() + " }}{% endset %}")
             return "{% set v" + str(i) + " = " + self.ex() + " %}"
         if k == 2:
             return "text{{ " + self.ex() + " }}{{ " + self.ex() + " }}"
